@@ -47,6 +47,12 @@ PlainCases(m) == IF m \in {"mcReq", "gaReq"}
 UnknownIntCases(m) == { Case(m, Opt(m), "unknown-int", ToString(k)) : k \in ({0, 10, 23, 24, 100, 255} \ KnownKeys(m)) }
 DupCases(m) == { Case(m, Opt(m), "dup", x) : x \in Members(m) }
 MissingCases(m) == { Case(m, {}, "missing", x) : x \in Req(m) }
+\* members that are byte strings of no fixed length by the specification, with lengths around the sizes a decoder may
+\* buffer (empty, one, HMAC-sized, 4096 / 4097, 70 000)
+ByteMembers == [mcReq |-> {"clientDataHash", "pinAuth"}, gaReq |-> {"clientDataHash", "pinAuth"}, gaResp |-> {"signature"},
+                hmac |-> {"saltEnc", "saltAuth"}, mcResp |-> {}, info |-> {}]
+ByteLens == {"0", "1", "16", "32", "48", "4096", "4097", "70000"}
+BytesLenCases(m) == { Case(m, Opt(m), "bytes-len", x \o ":" \o n) : x \in ByteMembers[m], n \in ByteLens }
 \* unknown text keys: a name, and texts that LOOK like member numbers ("1" is not the integer 1), the empty text
 UnknownTexts == {"someFutureMember", "1", "2", "3", "4", "06", "255", "-1", "", "0x01"}
 \* the options member present with a map that carries only some of rk / up / uv: the others take their defaults
@@ -56,6 +62,7 @@ Cases ==
             \cup { Case(m, p, "unknown-text", t) : t \in UnknownTexts, p \in {{}, Opt(m)} } : m \in Msgs }
     \cup { Case(m, {}, "no-options", "options") : m \in {"mcReq", "gaReq"} }
     \cup { Case(m, {}, "options-partial", a) : m \in {"mcReq", "gaReq"}, a \in PartialOptions }
+    \cup UNION { BytesLenCases(m) : m \in Msgs }
 \* the values a partial options map gives (members left out take the defaults: up true, rk and uv false)
 PartialUp(a) == a \notin {"up=false", "up=false,uv"}
 PartialRk(a) == a \in {"rk", "rk,uv", "uv=false,rk"}
@@ -70,6 +77,7 @@ JudgeCase(e) ==
            /\ (e.arg \in OptionValues => e.rk = Digit(e.arg, 1) /\ e.up = Digit(e.arg, 2) /\ e.uv = Digit(e.arg, 3))
       [] e.variant \in {"unknown-int", "unknown-text"} -> e.de = "ok" /\ e.rt         \* ignored: same value as without it
       [] e.variant \in {"dup", "missing"} -> e.de = "err"
+      [] e.variant = "bytes-len" -> e.de = "ok" /\ e.rt              \* parses, and writes back the bytes it was given
       [] e.variant = "no-options" -> e.de = "ok" /\ e.up /\ ~e.rk /\ ~e.uv
       [] e.variant = "options-partial" ->
            /\ e.de = "ok"
